@@ -134,6 +134,12 @@ func VerifC12() {
 		rt.Reach("c12.late")
 		if late {
 			rt.Assert(rt.LastClock() >= lis.openClk+uint64(retry), "after the breaker opened, a later request is admitted only after a full retry timeout")
+			// that request is the probe of a new half-open passage: whatever the racing callers left behind, it is the only one
+			ctx2 := base.NewEmptyEntryContext()
+			ctx2.Resource = base.NewResourceWrapper("r", base.ResTypeCommon, base.Outbound)
+			ctx2.SetEntry(base.NewSentinelEntry(ctx2, ctx2.Resource, nil))
+			rt.Reach("c12.next-passage")
+			rt.Assert(!cb.TryPass(ctx2), "the next passage to half-open admits exactly one probe until it completes (ProbeNum 0), also after racing completions")
 		}
 	}
 	probes := 0
@@ -163,7 +169,6 @@ func VerifC12() {
 			}
 		}
 	case 2:
-		rt.Assert(probes == 0 || sf != HalfOpen || true, "half-open admits no further request while the probe is in flight (ProbeNum 0)")
 		for i := 0; i < n; i++ {
 			if rs[i].isTry && rs[i].passed {
 				// a request may pass only after the breaker left half-open (closed by the probe, or re-opened and due again)
